@@ -109,8 +109,17 @@ def run_seq(sc):
         def now():
             return int(round((w.clock.now - 1000.0) * 1000))
 
+        import signal
+
+        class WallHang(BaseException):
+            pass
+
+        def on_alarm(signum, frame):
+            raise WallHang()
+        old_alarm = signal.signal(signal.SIGALRM, on_alarm)
         for name in sc["calls"]:
             c = CALLS_ALL[name]
+            signal.setitimer(signal.ITIMER_REAL, 8.0)       # real time: a call that hangs outside the simulated world (a lock never released)
             ce = {"ev": "call", "api": c["api"], "t": now(), "control": bool(c.get("control", False)), "value": c.get("value", 0),
                   "op": c.get("op", 0), "payload": list(c.get("payload", b"")), "status": c.get("status", 0),
                   "reason": list(c.get("reason", b"")), "timeout": c.get("timeout", 0), "name": name}
@@ -149,11 +158,18 @@ def run_seq(sc):
                 flush()
                 log({"ev": "blocked"})
                 break
+            except WallHang:
+                flush()
+                log({"ev": "hang"})
+                break
             except Exception as e:
                 flush()
                 log({"ev": "raise", "cls": type(e).__name__, "doc": isinstance(e, WebSocketException), "terr": e is w.last_exc,
                      "connected": bool(ws.connected), "sock_none": ws.sock is None, "tclosed": sock.closed, "t": now(),
                      "msg": str(e)[:60]})
+            finally:
+                signal.setitimer(signal.ITIMER_REAL, 0)
+        signal.signal(signal.SIGALRM, old_alarm)
     log({"ev": "end"})
     return ev
 
